@@ -152,11 +152,30 @@ def run(ctx):
                     if isinstance(rv, ast.Name):
                         rv = top_view.resolve(rv)
                     returned.append(rv)
-            tops = [x for x in dicts if any(x[1] is rv for rv in returned)] or [x for x in dicts if "type" in x[2]]
+            # (a record assembled from several displays: `{...} | {...}`, `{**a, **b}`)
+            top_nodes = []
+            for rv in returned:
+                stack = [rv]
+                while stack:
+                    x = stack.pop()
+                    if isinstance(x, ast.BinOp) and isinstance(x.op, ast.BitOr):
+                        stack += [x.left, x.right]
+                    elif isinstance(x, ast.Dict):
+                        top_nodes.append(x)
+                        stack += [val for k_, val in zip(x.keys, x.values) if k_ is None]
+                    elif isinstance(x, ast.Name):
+                        r2 = top_view.resolve(x)
+                        if r2 is not x:
+                            stack.append(r2)
+            tops = [x for x in dicts if any(x[1] is tn for tn in top_nodes)] or [x for x in dicts if "type" in x[2]]
             if not tops:
                 raise AnalysisError(f"{f}: top-level dict of the pre-image not found")
             tv, tnode, rd = tops[0]
             rd = dict(rd)
+            for _, tn2, rd2 in tops[1:]:
+                for k2, v2 in rd2.items():
+                    rd.setdefault(k2, v2)
+            top_ids = {id(x[1]) for x in tops}
             # fields added by subscript stores / update on the variable that holds the top dict
             par = tv.parent.get(id(tnode))
             if isinstance(par, ast.Assign) and isinstance(par.targets[0], ast.Name):
@@ -176,7 +195,7 @@ def run(ctx):
                 e = tv.inline(rd["hypergraph_metadata"])
                 good = is_self_attr(e, "_hypergraph_metadata") or norm(e) == "self.get_hypergraph_metadata()"
                 res.add("S-HASHFIELDS", f, norm(rd["hypergraph_metadata"]), "hypergraph_metadata", "ok" if good else ("violation" if isinstance(e, (ast.Constant, ast.Dict)) else "unknown"), "" if good else "hypergraph metadata is not taken from self._hypergraph_metadata", loc(tv.fi, tnode))
-            erecs = [x for x in dicts if "nodes" in x[2] and x[1] is not tnode]
+            erecs = [x for x in dicts if "nodes" in x[2] and id(x[1]) not in top_ids]
             nrecs = [x for x in dicts if "node" in x[2]]
             if not erecs or not nrecs:
                 raise AnalysisError(f"{f}: edge / node record idiom not recognised")
